@@ -3,6 +3,7 @@ from __future__ import annotations
 
 import json
 import os
+import sys
 import time
 from dataclasses import dataclass, field
 from typing import Any, Dict, List, Optional
@@ -183,8 +184,15 @@ class Report:
             f"[{self.prop}] tier={self.tier} rules={len(rules)} obligations={len(self.instances)} hold={n_ok} "
             f"known={len(listed)} violations={len(unlisted)} errors={len(self.errors)} wall={wall:.2f}s"
         )
-        for ln in lines:
-            print(ln)
+        try:
+            for ln in lines:
+                print(ln)
+            sys.stdout.flush()
+        except BrokenPipeError:  # the reader closed the pipe (e.g. `| head`); the verdict is still the exit code
+            try:
+                os.dup2(os.open(os.devnull, os.O_WRONLY), sys.stdout.fileno())
+            except OSError:
+                pass
         if unlisted:
             return 1
         if self.errors:
